@@ -20,6 +20,7 @@ JudgeCalls(t, i, pos, op, n) ==
     IF i > Len(t.events) THEN "ok"
     ELSE LET e == t.events[i] IN
          CASE e[1] = "call" -> JudgeCalls(t, i + 1, pos, e[2], e[3])
+           [] e[1] = "ret" /\ op = "write" -> JudgeCalls(t, i + 1, pos, "", 0)   \* outbound: judged by WriteNote, consumes nothing
            [] e[1] = "ret" ->
                 LET exp == IF op = "read" THEN ExpectRead(t.S, pos, n) ELSE ExpectLine(t.S, pos) IN
                 IF e[2] # exp THEN
@@ -58,6 +59,10 @@ Replay(t, i, s0) ==
                 ELSE IF ~NeedsRecv(s) THEN "drift:recv-issued-when-buffer-sufficient-at-" \o ToString(i)
                 ELSE IF Len(RecvData(s, 1000000)) # e[2] THEN "drift:recv-size-at-" \o ToString(i)
                 ELSE Replay(t, i + 1, DoRecv(s, 1000000))
+           [] e[1] = "send" -> Replay(t, i + 1, s)
+           [] e[1] = "call" /\ e[2] = "write" ->
+                IF s.pend # "none" THEN "drift:call-while-pending-at-" \o ToString(i)
+                ELSE Replay(t, i + 3, Complete(StartWrite(s, e[4])))   \* skips the "send" and "ret" events (judged by WriteCheck)
            [] e[1] = "call" ->
                 IF s.pend # "none" THEN "drift:call-while-pending-at-" \o ToString(i)
                 ELSE Replay(t, i + 1, IF e[2] = "read" THEN StartRead(s, e[3]) ELSE StartLine(s))
@@ -66,6 +71,19 @@ Replay(t, i, s0) ==
                 IN IF f.pend # "none" THEN "drift:returned-while-machine-needs-recv-at-" \o ToString(i)
                    ELSE IF LastResult(f) # e[2] THEN "drift:result-at-" \o ToString(i)
                    ELSE Replay(t, i + 1, f)
+
+\* beyond the listed properties (note): write(data) hands exactly data to socket.send(), once, returns its result and reads nothing
+RECURSIVE WriteCheck(_, _)
+WriteCheck(t, i) ==
+    IF i > Len(t.events) THEN ""
+    ELSE LET e == t.events[i] IN
+         IF e[1] = "call" /\ e[2] = "write" THEN
+              (IF i + 2 > Len(t.events) THEN "EXT:write-did-not-return"
+               ELSE IF t.events[i + 1][1] # "send" \/ t.events[i + 1][2] # e[4] THEN "EXT:write-did-not-pass-the-data-to-send-once"
+               ELSE IF t.events[i + 2][1] # "ret" \/ t.events[i + 2][2] # <<Len(e[4])>> THEN "EXT:write-result-is-not-send-result"
+               ELSE WriteCheck(t, i + 3))
+         ELSE IF e[1] = "send" THEN "EXT:send-without-write"
+         ELSE WriteCheck(t, i + 1)
 
 JudgeReader(t) ==
     IF t.received # t.slen THEN "triv"
@@ -79,8 +97,10 @@ Next == /\ verdict = "pending"
         /\ LET t == Traces[tid]
                v == IF t.kind = "wrapper" THEN JudgeWrapper(t) ELSE JudgeReader(t)
                d == IF t.kind = "wrapper" /\ TotalReceived(t) = Len(t.S) THEN Replay(t, 1, SockInit0(SegsOf(t, 1, 0))) ELSE "conf"
+               x == IF t.kind = "wrapper" THEN WriteCheck(t, 1) ELSE ""
            IN /\ verdict' = v
               /\ (v # "ok" => PrintT("V " \o ToString(tid) \o " " \o v))
+              /\ (x # "" => PrintT("E " \o ToString(tid) \o " " \o x))
               /\ (d # "conf" => PrintT("D " \o ToString(tid) \o " " \o d))
         /\ UNCHANGED tid
 Spec == Init /\ [][Next]_<<tid, verdict>>
